@@ -912,6 +912,47 @@ func ruleC03RefPerOccurrence(c *Ctx) {
 						sArgOK = true
 					}
 				}
+				// a helper that is handed the schema and its info: at every call the info is the entry of that schema
+				if pInfo, isParam := structBase(fa.X).(*ssa.Parameter); !sArgOK && isParam && c.P.OnlyStaticCallers(fn) {
+					idxOf := func(p *ssa.Parameter) int {
+						for k, q := range fn.Params {
+							if q == p {
+								return k
+							}
+						}
+						return -1
+					}
+					ii := idxOf(pInfo)
+					sites := c.P.CallIndex().Sites[fn]
+					okSites := ii >= 0 && len(sites) > 0
+					for _, site := range sites {
+						args := site.Common().Args
+						if ii >= len(args) {
+							okSites = false
+							continue
+						}
+						_, st2 := c.accessPath(structBase(args[ii]))
+						if len(st2) == 0 {
+							_, st2 = c.accessPath(args[ii])
+						}
+						okSite := false
+						for _, a := range call.Call.Args {
+							pa, isP := a.(*ssa.Parameter)
+							if !isP {
+								continue
+							}
+							if si := idxOf(pa); si >= 0 && si < len(args) && len(st2) >= 2 && st2[len(st2)-1].Kind == "lookup" && st2[len(st2)-1].Key == args[si] {
+								okSite = true
+							}
+						}
+						if !okSite {
+							okSites = false
+						}
+					}
+					if okSites {
+						sArgOK = true
+					}
+				}
 				if !sArgOK {
 					okAll = false
 				}
